@@ -239,6 +239,7 @@ def main(argv=None):
     known_hits = {}
     min_budget = spec.get('min_budget', 40)
     n_unknown = 0
+    todo = []
     for sig in sorted(by_sig):
         vs = by_sig[sig]
         e = match_known(known, sig)
@@ -246,9 +247,14 @@ def main(argv=None):
             known_hits.setdefault(e['id'], [e, 0])[1] += len(vs)
             continue
         n_unknown += 1
-        if n_unknown > 8:
+        if n_unknown > 5:
             lines.append('(further distinct violation signature not minimised: %s, %d runs)' % (sig, len(vs)))
+            rc = 1
             continue
+        todo.append((sig, vs))
+
+    def handle(item):
+        sig, vs = item
         v = vs[0]
         mi = minimise(prop, v['scenario'], sig, min_budget, a.hashseed)
         scen = mi['scenario']
@@ -261,12 +267,19 @@ def main(argv=None):
             info['original_replays'] = 'harness_error' not in res0 and any(x['signature'] == sig for x in res0['violations'])
             info['note'] = 'minimised scenario did not replay identically; original kept'
         path = write_replay(prop, scen, v, a.hashseed, info)
-        lines.append('VIOLATION property=%s replay=%s' % (prop, path))
-        lines.append('  oracle=%s signature=%s runs=%d first_run=%d minimised(%d steps/%d tried) fresh-replay=%s' % (
-            v['oracle'], sig, len(vs), v['run'], mi['steps'], mi['tried'], ok))
-        lines.append('  ' + v['detail'][:500].replace('\n', '\n  '))
-        reported.append(sig)
-        rc = 1
+        return sig, vs, v, mi, ok, path
+
+    if todo:
+        from concurrent.futures import ThreadPoolExecutor
+        with ThreadPoolExecutor(max_workers=5) as ex:
+            results = list(ex.map(handle, todo))
+        for sig, vs, v, mi, ok, path in results:
+            lines.append('VIOLATION property=%s replay=%s' % (prop, path))
+            lines.append('  oracle=%s signature=%s runs=%d first_run=%d minimised(%d steps/%d tried) fresh-replay=%s' % (
+                v['oracle'], sig, len(vs), v['run'], mi['steps'], mi['tried'], ok))
+            lines.append('  ' + v['detail'][:500].replace('\n', '\n  '))
+            reported.append(sig)
+            rc = 1
     for kid, (e, n) in sorted(known_hits.items()):
         lines.append('KNOWN-FINDING: property=%s %s [%s, %d hits]' % (prop, e['what'], kid, n))
     if agg['harness_errors']:
